@@ -16,7 +16,11 @@ account/key/sign.go on every run: the ordered (field, encoding) lists of `writeB
 `writeBlockHeaderOmitSign`, `Tx.CalculateTxHash`, `CalculateHashWithoutSign`, and the exported-field
 inventories of `BlockHeader` and `TxBody`. `Enc.encode spec r` is the byte string handed to SHA-256.
 SHA-256 is a parameter `H`; binding statements are in reduction form: an unchanged identifier after a
-single-field change *is* an explicit collision of `H` (never an axiom that none exists).
+single-field change *is* an explicit collision of `H` (never an axiom that none exists). Collision
+conclusions always name the two inputs or bound them to finite lists computed from the operands
+(`Collision H x y` with given `x y`, `CollisionIn H A B`, `Merkle.CollOn h A B`) — an unrestricted
+`∃ x y, x ≠ y ∧ H x = H y` holds for every fixed-output-length `H` by counting and would make the
+statements vacuous.
 
 NOTE (not claimed): the digests concatenate variable-length fields without length prefixes, so the
 encoding is *not* injective on whole records (bytes can be moved between adjacent raw fields, e.g.
@@ -260,32 +264,36 @@ theorem root_eq_rootB (h : α → α → α) (zero : α) (xs : List α) :
     match hr : reduceB h (x :: xs').length (x :: xs'), hne with
     | r :: rs, _ => simp [pre]
 
-/-- **merkle_same_len.** Two entry lists of the same length with the same root are the same list,
-or an explicit collision of the branch function is exhibited (two different child pairs, all four
-satisfying the node invariant `P`, with equal parents). Any length, any `h`. -/
-theorem merkle_same_len (h : α → α → α) (P : α → Prop) (hP : ∀ a b, P a → P b → P (h a b)) (zero : α)
-    (xs ys : List α) (hl : xs.length = ys.length) (hx : ∀ x ∈ xs, P x) (hy : ∀ y ∈ ys, P y)
-    (he : root h zero (xs.map some) = root h zero (ys.map some)) : xs = ys ∨ Coll h P := by
+/-- **merkle_same_len.** Two entry lists of the same length with the same root are the same list, or
+an explicit collision of the branch function is exhibited **among the child pairs actually hashed while
+computing the two roots** (`hashed h xs`, `hashed h ys`: finite lists computed from the inputs — not an
+unrestricted `∃`, which any fixed-output-length hash satisfies by counting). Any length, any `h`. -/
+theorem merkle_same_len (h : α → α → α) (zero : α) (xs ys : List α) (hl : xs.length = ys.length)
+    (he : root h zero (xs.map some) = root h zero (ys.map some)) :
+    xs = ys ∨ CollOn h (hashed h xs) (hashed h ys) := by
   rw [root_eq_rootB, root_eq_rootB] at he
-  exact rootB_same_len h P hP zero xs ys hl hx hy he
+  exact rootB_same_len h zero xs ys hl he
 
 /-- FULL statement `merkle_exact_list : root xs = root ys → xs = ys ∨ collision` is FALSE on the pinned
 code (see `merkle_odd_duplication`). Proved part, for byte strings and `h l r = H (l ‖ r)`: under the
 guard `|xs| = |ys|` — which the block header does not record — equal roots give equal lists or two
-*different* 64-byte inputs of `H` with the same digest. Leaves are 32-byte hashes; `H` has 32-byte
-output (true of SHA-256; used to split `l ‖ r`, i.e. domain separation by length is proved, not assumed). -/
+*different* strings, one among those hashed for `xs` and one among those hashed for `ys`, with the same
+digest. Leaves are 32-byte hashes; `H` has 32-byte output (true of SHA-256; used to split `l ‖ r`, i.e.
+domain separation by length is proved, not assumed). -/
 theorem merkle_exact_list_partial (H : Bytes → Bytes) (hH : ∀ x, (H x).length = 32) (zero : Bytes)
     (xs ys : List Bytes) (hl : xs.length = ys.length) (hx : ∀ x ∈ xs, x.length = 32)
     (hy : ∀ y ∈ ys, y.length = 32)
     (he : root (fun l r => H (l ++ r)) zero (xs.map some) = root (fun l r => H (l ++ r)) zero (ys.map some)) :
-    xs = ys ∨ ∃ x y, Collision H x y := by
-  rcases merkle_same_len (fun l r => H (l ++ r)) (fun b => b.length = 32) (fun _ _ _ _ => hH _) zero
-    xs ys hl hx hy he with h1 | ⟨a, b, c, d, ha, _, hc, _, hne, heq⟩
+    xs = ys ∨ CollisionIn H (hashedBytes H xs) (hashedBytes H ys) := by
+  rcases merkle_same_len (fun l r => H (l ++ r)) zero xs ys hl he with h1 | ⟨p, hp, q, hq, hne, heq⟩
   · exact .inl h1
-  · refine .inr ⟨a ++ b, c ++ d, ?_, heq⟩
+  · have hP : ∀ a b : Bytes, a.length = 32 → b.length = 32 → (H (a ++ b)).length = 32 := fun _ _ _ _ => hH _
+    have hp32 := hashedB_all (fun l r => H (l ++ r)) (fun b => b.length = 32) hP xs.length xs hx p hp
+    have hq32 := hashedB_all (fun l r => H (l ++ r)) (fun b => b.length = 32) hP ys.length ys hy q hq
+    refine .inr ⟨p.1 ++ p.2, List.mem_map.mpr ⟨p, hp, rfl⟩, q.1 ++ q.2, List.mem_map.mpr ⟨q, hq, rfl⟩, ?_, heq⟩
     intro happ
-    have := List.append_inj happ (by rw [ha, hc])
-    exact hne (by rw [this.1, this.2])
+    have := List.append_inj happ (by rw [hp32.1, hq32.1])
+    exact hne (Prod.ext this.1 this.2)
 
 /-- **The genuine weakness (DESIGN §5 lead 6, replayed on the real code by the harness): an odd level
 duplicates its last node, so a list of odd length ≥ 3 and the same list with its last entry repeated
@@ -332,6 +340,10 @@ open T in -- no leaf/branch domain separation either: a one-entry list whose ent
 example : rootB node (leaf 0) [node (leaf 1) (leaf 2)] = rootB node (leaf 0) [leaf 1, leaf 2] := by decide
 open T in -- nil first entry ⇒ nil root whatever follows (entries with nil GetHash are outside `merkle_same_len`)
 example : root node (leaf 0) [none, some (leaf 2)] = none ∧ root node (leaf 0) [none, some (leaf 3)] = none := by decide
+-- the collision disjunct is not vacuous: in the free algebra it is false, so equal roots force equal lists
+open T in
+example : ¬ CollOn node (hashed node [leaf 1, leaf 2, leaf 3]) (hashed node [leaf 1, leaf 2, leaf 4]) := by
+  unfold CollOn; decide
 -- hypotheses of merkle_exact_list_partial are satisfiable (H = a 32-byte-output function)
 example : ∀ x : Bytes, ((x ++ List.replicate 32 0).take 32).length = 32 := by intro x; simp
 end merkle
@@ -419,7 +431,9 @@ example : marshalMerkle true { rOk with gas := 1 } ≠ marshalMerkle true rOk :=
 `merkle_odd_duplication` for why the guard is needed): if two receipt lists of the same length, each
 followed by the same number of further 32-byte leaves (the block bloom filter's hash, when present),
 have equal `Receipts.MerkleRoot`, then the receipts are pairwise equal on every consensus-relevant
-field of the format, or an explicit SHA-256 collision is exhibited. `mb r` are the Merkle bytes of `r`. -/
+field of the format, or an explicit SHA-256 collision is exhibited between the strings hashed for the
+one side (the receipts' Merkle bytes `mb r` and the tree's 64-byte branch inputs) and those hashed for
+the other. `mb r` are the Merkle bytes of `r`. -/
 theorem receipts_root_binds (H : Bytes → Bytes) (hH : ∀ x, (H x).length = 32) (zero : Bytes) (v2 : Bool)
     (mb : Receipt → Bytes) (rs rs' : List Receipt) (tl tl' : List Bytes)
     (hmb : ∀ r ∈ rs ++ rs', marshalMerkle v2 r = some (mb r)) (hwf : ∀ r ∈ rs ++ rs', r.wfM = true)
@@ -427,7 +441,9 @@ theorem receipts_root_binds (H : Bytes → Bytes) (hH : ∀ x, (H x).length = 32
     (ht : ∀ x ∈ tl ++ tl', x.length = 32)
     (he : root (fun l r => H (l ++ r)) zero ((rs.map (fun r => H (mb r)) ++ tl).map some) =
           root (fun l r => H (l ++ r)) zero ((rs'.map (fun r => H (mb r)) ++ tl').map some)) :
-    (rs.map (Receipt.view v2) = rs'.map (Receipt.view v2) ∧ tl = tl') ∨ ∃ x y, Collision H x y := by
+    (rs.map (Receipt.view v2) = rs'.map (Receipt.view v2) ∧ tl = tl') ∨
+      CollisionIn H (rs.map mb ++ hashedBytes H (rs.map (fun r => H (mb r)) ++ tl))
+                    (rs'.map mb ++ hashedBytes H (rs'.map (fun r => H (mb r)) ++ tl')) := by
   have hlen32 : ∀ (l : List Receipt) (t : List Bytes), (∀ x ∈ t, x.length = 32) →
       ∀ x ∈ l.map (fun r => H (mb r)) ++ t, x.length = 32 := by
     intro l t htt x hx
@@ -440,7 +456,7 @@ theorem receipts_root_binds (H : Bytes → Bytes) (hH : ∀ x, (H x).length = 32
   · have h2 := List.append_inj h1 (by simp [hl])
     have h3 : (rs.map mb).map H = (rs'.map mb).map H := by
       rw [List.map_map, List.map_map]; exact h2.1
-    rcases map_hash_inj H _ _ h3 with h4 | ⟨x, y, hxy, hh⟩
+    rcases map_hash_inj H _ _ h3 with h4 | ⟨x, hx, y, hy, hxy, hh⟩
     · left
       refine ⟨?_, h2.2⟩
       clear he h1 h2 h3
@@ -459,27 +475,30 @@ theorem receipts_root_binds (H : Bytes → Bytes) (hH : ∀ x, (H x).length = 32
             exact receipt_digest_inj v2 r r' (mb r) (hwf r (by simp)) (hwf r' (by simp)) e1 e2
           · rcases List.mem_append.mp hx with h | h <;> simp [h]
           · rcases List.mem_append.mp hx with h | h <;> simp [h]
-    · exact .inr ⟨x, y, hxy, hh⟩
-  · exact .inr h1
+    · exact .inr ⟨x, List.mem_append_left _ hx, y, List.mem_append_left _ hy, hxy, hh⟩
+  · exact .inr (h1.mono (fun x m => List.mem_append_right _ m) (fun y m => List.mem_append_right _ m))
 
 /-- **The transaction root commits to the ordered list of transaction identifiers' inputs** (equal
 length): equal `CalculateTxsRootHash` ⇒ the tx-hash inputs (`encode txHashSpec`, i.e. every body field
-incl. the signature, `tx_id_binds`) are pairwise equal, or an explicit SHA-256 collision is exhibited.
+incl. the signature, `tx_id_binds`) are pairwise equal, or an explicit SHA-256 collision is exhibited
+between the strings hashed for the one list (tx-hash inputs and branch inputs) and for the other.
 (Assumes each `tx.Hash` is the hash of its body — `Tx.Validate` checks that on the execution path.) -/
 theorem txs_root_binds (H : Bytes → Bytes) (hH : ∀ x, (H x).length = 32) (zero : Bytes) (txs txs' : List Rec)
     (hl : txs.length = txs'.length)
     (he : root (fun l r => H (l ++ r)) zero ((txs.map (fun t => H (encode txHashSpec t))).map some) =
           root (fun l r => H (l ++ r)) zero ((txs'.map (fun t => H (encode txHashSpec t))).map some)) :
-    txs.map (encode txHashSpec) = txs'.map (encode txHashSpec) ∨ ∃ x y, Collision H x y := by
+    txs.map (encode txHashSpec) = txs'.map (encode txHashSpec) ∨
+      CollisionIn H (txs.map (encode txHashSpec) ++ hashedBytes H (txs.map (fun t => H (encode txHashSpec t))))
+                    (txs'.map (encode txHashSpec) ++ hashedBytes H (txs'.map (fun t => H (encode txHashSpec t)))) := by
   rcases merkle_exact_list_partial H hH zero _ _ (by simp [hl])
       (fun x hx => by obtain ⟨t, _, rfl⟩ := List.mem_map.mp hx; exact hH _)
       (fun x hx => by obtain ⟨t, _, rfl⟩ := List.mem_map.mp hx; exact hH _) he with h1 | h1
   · have h3 : (txs.map (encode txHashSpec)).map H = (txs'.map (encode txHashSpec)).map H := by
       rw [List.map_map, List.map_map]; exact h1
-    rcases map_hash_inj H _ _ h3 with h4 | ⟨x, y, hxy, hh⟩
+    rcases map_hash_inj H _ _ h3 with h4 | ⟨x, hx, y, hy, hxy, hh⟩
     · exact .inl h4
-    · exact .inr ⟨x, y, hxy, hh⟩
-  · exact .inr h1
+    · exact .inr ⟨x, List.mem_append_left _ hx, y, List.mem_append_left _ hy, hxy, hh⟩
+  · exact .inr (h1.mono (fun x m => List.mem_append_right _ m) (fun y m => List.mem_append_right _ m))
 
 end receipts
 
